@@ -314,7 +314,8 @@ def random_cfg(rng, alg=None, family="roomy", nobs=None, maxn=4):
     cfg = {"K": K, "machines": machines, "arrays": arrays, "maxIngest": max_ingest,
            "hotCap": hot, "coldCap": cold,
            "hotRate": max(1, max(o["rate"] for o in obs) + rng.randint(0, 2)),
-           "coldRate": -1 if (family == "tight" and realtime) else rng.randint(1, 3), "obs": obs}
+           "coldRate": (-1 if ((family == "tight" and realtime) or (family == "tier" and rng.random() < 0.2))
+                        else rng.randint(1, 3)), "obs": obs}
     alg = alg or rng.choice(["batch", "batch", "queue", "plan", "greedy"])
     cfg["alg"] = alg
     if alg == "batch":
